@@ -256,6 +256,12 @@ class _SetIteration:
                 # We know _Base (Set, Bucket, Tree, TreeSet) will all iterate
                 # in sorted order. Other than that, we have no guarantee.
                 self.to_iterate = to_iterate = sorted(self.to_iterate)
+                # ... and each key must appear only once.
+                unique = to_iterate[:1]
+                for key in to_iterate[1:]:
+                    if not (key == unique[-1]):
+                        unique.append(key)
+                self.to_iterate = to_iterate = unique
 
         if useValues:
             try:
